@@ -136,6 +136,7 @@ func (ra *RestAgent) receiveBundleMessage(msg BundleMessage) {
 		} else {
 			bundles = append(val.([]bpv7.Bundle), msg.Bundle)
 		}
+		verifSchedPoint("rest/deliver-loaded")
 
 		ra.mailbox.Store(uuid, bundles)
 
@@ -219,8 +220,10 @@ func (ra *RestAgent) handleFetch(w http.ResponseWriter, r *http.Request) {
 	} else if val, ok := ra.mailbox.Load(fetchRequest.UUID); ok {
 		log.WithField("uuid", fetchRequest.UUID).Info("REST client fetches bundles")
 		fetchResponse.Bundles = val.([]bpv7.Bundle)
+		verifSchedPoint("rest/fetch-loaded")
 
 		ra.mailbox.Delete(fetchRequest.UUID)
+		verifSchedPoint("rest/fetch-cleared")
 	} else if !ok {
 		log.WithField("uuid", fetchRequest.UUID).Debug("REST client has no new bundles to fetch")
 		fetchResponse.Bundles = make([]bpv7.Bundle, 0)
